@@ -775,7 +775,7 @@ var focused = []variant{
 var Prop = &harness.Prop{
 	ID:          "C16",
 	Level:       "model_checking",
-	Rule:        "history exploration: every sequence up to the depth bound over 13 operations {connect(S0|S1, name a|b), rotate(S0 keep/drop old key), rotate(S1 keep old), S0.suites:=[GCM] / [CBC,GCM], client.suites:=[GCM], S0.ClientAuth:=RequireAny / None, S0.disableTickets} on one client Config with an LRU session cache (capacity 1-3) and two real server Configs (ticket keys shared or separate), for GMSSL with explicit suite lists, GMSSL with default lists and TLS 1.2; a reference model (key rings, cache entries as (name, ticket key id, suite, client-cert flag) in LRU order, configuration) predicts MUST / MUST NOT / MAY resume for every connect; observed: DidResume agrees on both ends and with the prediction, exported keying material equal, data delivered, resumed sessions keep suite and both peers' certificates, no failure, no panic. Ticket faults: the ClientHello of a resuming connection is captured and replayed raw with every byte of the ticket changed (^01, ^80), every truncation, extensions, and 14 authentic tickets (re-sealed under the configured key) whose plaintext state is altered: never a resumption from a modified ticket, never a crash. states = distinct model states reached; transitions = operations applied. Reference client: the independent implementation gmref keeps tickets and master secrets itself and performs the abbreviated handshake with its own key derivation against a library server; every history to the depth bound over {connect without ticket, with the newest, with the oldest ticket, rotate keeping / dropping the old key, next ClientAuth policy (none, request, require-and-verify), newest ticket with a wrong master secret, newest ticket offering only the other suite}; MUST/MUST NOT resume predicted from key ring, suite and certificate policy; a resumed session keeps the client identity of the original; a client without the master secret is never accepted. Variants with related server Configs: S1 = S0.Clone() and S1 handing out S0.Clone() through GetConfigForClient (a rotation on one must not reach the other). Version caps: variants in which operations move S0's and the client's MaxVersion (TLS 1.0-1.2); the model entry carries the protocol version, a session MUST NOT be resumed under another version and every connection reports the version the caps give.",
+	Rule:        "history exploration: every sequence up to the depth bound over 13 operations {connect(S0|S1, name a|b), rotate(S0 keep/drop old key), rotate(S1 keep old), S0.suites:=[GCM] / [CBC,GCM], client.suites:=[GCM], S0.ClientAuth:=RequireAny / None, S0.disableTickets} on one client Config with an LRU session cache (capacity 1-3) and two real server Configs (ticket keys shared or separate), for GMSSL with explicit suite lists, GMSSL with default lists and TLS 1.2; a reference model (key rings, cache entries as (name, ticket key id, suite, client-cert flag) in LRU order, configuration) predicts MUST / MUST NOT / MAY resume for every connect; observed: DidResume agrees on both ends and with the prediction, exported keying material equal, data delivered, resumed sessions keep suite and both peers' certificates, no failure, no panic. Ticket faults: the ClientHello of a resuming connection is captured and replayed raw with every byte of the ticket changed (^01, ^80), every truncation, extensions, and 14 authentic tickets (re-sealed under the configured key) whose plaintext state is altered: never a resumption from a modified ticket, never a crash. states = distinct model states reached; transitions = operations applied. Reference client: the independent implementation gmref keeps tickets and master secrets itself and performs the abbreviated handshake with its own key derivation against a library server; every history to the depth bound over {connect without ticket, with the newest, with the oldest ticket, rotate keeping / dropping the old key, next ClientAuth policy (none, request, require-and-verify), newest ticket with a wrong master secret, newest ticket offering only the other suite}; MUST/MUST NOT resume predicted from key ring, suite and certificate policy; a resumed session keeps the client identity of the original; a client without the master secret is never accepted. Variants with related server Configs: S1 = S0.Clone() and S1 handing out S0.Clone() through GetConfigForClient (a rotation on one must not reach the other). Version caps: variants in which operations move S0's and the client's MaxVersion (TLS 1.0-1.2); the model entry carries the protocol version, a session MUST NOT be resumed under another version and every connection reports the version the caps give. Every history keeps all earlier Conn pairs and re-checks their exported keying material and peer certificates after every later connection. Identity-focused reference-client histories (ClientAuth = request): the client may withhold its certificate, offer a ticket with another suite, resume a ticket with its own suite - a session is worth what its own full handshake proved.",
 	Assumptions: []string{"the reference-client units use gmref (independent key derivation and abbreviated handshake); its model of MUST/MUST NOT resume is: ticket key in the server's ring, same suite offered, client-certificate policy compatible", "the client always holds a certificate; servers only request/require it per policy", "resumption is observed through DidResume on both ends and, for raw replays, through the shape of the server's first flight"},
 	Bounds: func(tier string) string {
 		if tier == "thorough" {
